@@ -23,9 +23,22 @@ let step _ cs os =
               a_limit = (let l = get f "limit" in if l = "-" then None else Some (n_of_hex l));
               a_flen = n_of_hex (get f "flen"); a_id = n_of_hex (get f "id"); a_notify = (get f "ntf" = "1") } in
     let ec = n_of_hex (get f "ec") in
-    let impl = { Limits.w_sent = sent_of (get o "sent"); w_reported = (get o "rep" = "1"); w_alive = (get o "alive" = "1") } in
     let model = Limits.model_C17_abs ec a in
     let out = ref [] in
+    (* A case with conc=K reps=M is K*M simultaneous instances of ONE abstract case on K connections of one
+       server. The model is a function of the abstract case, so all instances must be observed alike; the
+       harness folds them into one observation and prints rep=mixed:<n>/<K*M> when the error hook saw a
+       report for some instances only (neither none nor all). Property text: "an oversized response is
+       replaced ..., an oversized notification is dropped and reported": every refusal is reported, and
+       nothing is reported for a message within the limit; whichever the model says for this case, at
+       least one instance was observed otherwise. Such an observation is judged with the negation of the
+       model's `reported`, so that the extracted oracle and the comparison see the deviating instance. *)
+    let rep = get o "rep" in
+    let mixed = String.length rep >= 5 && String.sub rep 0 5 = "mixed" in
+    if mixed then out := ("BAD\tside=impl\tclause=reported-for-some-instances-only:" ^ rep) :: !out;
+    let impl = { Limits.w_sent = sent_of (get o "sent");
+                 w_reported = (if mixed then not model.Limits.w_reported else rep = "1");
+                 w_alive = (get o "alive" = "1") } in
     if not (Limits.ok_C17_abs a model) then out := "BAD\tside=model\tclause=ok_C17(model)=false" :: !out;
     if not (Limits.ok_C17_abs a impl) then out := "BAD\tside=impl\tclause=ok_C17" :: !out;
     if not (Limits.c17_obs_eqb impl model) then out := "DIFF\tfields=sent/reported/alive" :: !out;
